@@ -293,6 +293,7 @@ func (s *SecureChannel) dispatcher() {
 				debug.Printf("uasc %d/%d: no handler for %T", s.c.ID(), msg.RequestID, msg.body)
 				continue
 			}
+			verifPoint("sc.disp.afterPop")
 
 			// HACK
 			if _, ok := msg.Response().(*ua.OpenSecureChannelResponse); ok {
@@ -500,6 +501,7 @@ func (s *SecureChannel) readChunk() (*MessageChunk, error) {
 			}
 
 			s.openingInstance.algo = algo
+			verifPoint("sc.srvopn.algoSwapped")
 		}
 
 		decryptWith = s.openingInstance
@@ -866,6 +868,7 @@ func (s *SecureChannel) renew(instance *channelInstance) error {
 	s.reqLocker.lock()
 	defer s.reqLocker.unlock()
 	s.pendingReq.Wait()
+	verifPoint("sc.renew.afterWait")
 	instance.Lock()
 	defer instance.Unlock()
 
@@ -920,6 +923,7 @@ func (s *SecureChannel) sendRequestWithTimeout(
 	timeout time.Duration,
 	h ResponseHandler) error {
 
+	verifPoint("sc.send.beforeAdd")
 	s.pendingReq.Add(1)
 	respRequired := h != nil
 
@@ -939,6 +943,7 @@ func (s *SecureChannel) sendRequestWithTimeout(
 
 	select {
 	case <-ctx.Done():
+		verifPoint("sc.ctx.done")
 		s.popHandler(reqID)
 		return ctx.Err()
 	case <-s.disconnected:
@@ -953,6 +958,7 @@ func (s *SecureChannel) sendRequestWithTimeout(
 		}
 		return h(msg.Response())
 	case <-timer.C:
+		verifPoint("sc.timeout.fired")
 		s.popHandler(reqID)
 		return ua.StatusBadTimeout
 	}
@@ -1040,6 +1046,7 @@ func (s *SecureChannel) sendAsyncWithTimeout(
 		default:
 		}
 		if i > 0 { // fix sequence number on subsequent chunks
+			verifPoint("sc.send.betweenChunks")
 			number := instance.nextSequenceNumber()
 			binary.LittleEndian.PutUint32(chunk[16:], uint32(number))
 		}
@@ -1094,6 +1101,7 @@ func (s *SecureChannel) writeMessageChunks(ctx context.Context, instance *channe
 		}
 
 		if i > 0 {
+			verifPoint("sc.send.betweenChunks")
 			// newMessage assigned the first sequence number when the message header
 			// was created, and EncodeChunks copies it into every chunk. Each chunk
 			// after the first must advance it before signing so the on-wire sequence
